@@ -102,6 +102,11 @@ impl<CS: CLCiphersuite> Signature<CL03<CS>> {
             return false;
         }
 
+        // v is a group element: only its canonical representative in (0, N) is accepted
+        if sign.v <= 0 || sign.v >= pk.N {
+            return false;
+        }
+
         let lhs = Integer::from(sign.v.pow_mod_ref(&sign.e, &pk.N).unwrap());
 
         let rhs = (Integer::from(a_bases.0[0].pow_mod_ref(&message.value, &pk.N).unwrap())
@@ -137,6 +142,11 @@ impl<CS: CLCiphersuite> Signature<CL03<CS>> {
             .iter()
             .any(|m| m.value < 0 || m.value.significant_bits() > CS::lm)
         {
+            return false;
+        }
+
+        // v is a group element: only its canonical representative in (0, N) is accepted
+        if sign.v <= 0 || sign.v >= pk.N {
             return false;
         }
 
